@@ -89,6 +89,9 @@ const (
 
 	RtcpHeaderLength = 4
 
+	// RtcpSrLength is the length of a sender report without report blocks: header, ssrc and sender info
+	RtcpSrLength = 28
+
 	RtcpVersion = 2
 )
 
